@@ -8,8 +8,12 @@ def setup(chk, tags=""):
     prog = ir.load(tags)
     base = K.Base(prog)
     chk.extra["source_hash"] = prog.source_hash()
+    chk._prog = prog
     chk.extra["config"] = {"tags": tags or "(default: amd64,gc)", "field_mul": "amd64 assembly (fe_amd64.s, interpreted)" if base.has_asm else "portable Go"}
     return prog, base
+
+
+from sym import exec as _X
 
 
 def _xs_delta():
@@ -31,7 +35,7 @@ def _xs_merge(chk, d):
 def _delta(chk, mark):
     return dict(obs=chk.obs[mark["obs"]:], violations=chk.violations[mark["viol"]:], known=chk.known[mark["known"]:],
                 inconclusive=chk.inconclusive[mark["inc"]:], functions=chk.functions, validated=chk.validated - mark["val"],
-                samples=chk.samples[mark["samples"]:], extra=chk.extra, xs=_xs_delta())
+                samples=chk.samples[mark["samples"]:], extra=chk.extra, xs=_xs_delta(), cov=set(_X.COVERED))
 
 
 def _mark(chk):
@@ -47,6 +51,7 @@ def _apply(chk, d):
     chk.validated += d["validated"]
     chk.samples.extend(d["samples"])
     _xs_merge(chk, d.get("xs"))
+    _X.COVERED.update(d.get("cov", ()))
     for k, v in d.get("extra", {}).items():
         if k == "cross_solver":
             continue
@@ -146,3 +151,97 @@ def api_surface(chk, prog, recv, covered, claim):
     methods = sorted(f["short"] for n, f in prog.funcs.items() if n.startswith(prefix) and f.get("exported") and not f.get("external"))
     unknown = [m for m in methods if m not in covered]
     chk.add(Ob("API surface: every exported method of %s (%d, enumerated from SSA) is covered by %s" % (recv, len(methods), claim), "unsat" if not unknown else "uncovered:%s" % unknown, 0, [], "API surface from SSA"))
+
+
+def uncovered_blocks(prog, only=None):
+    """basic blocks of entered repo functions that no explored path reached, ignoring blocks from which no return is
+    reachable (panic-only code).  A block listed here is code outside what the harness bounds explored - typically a branch
+    on a length / count above the bound."""
+    entered = {}
+    for fn, b in _X.COVERED:
+        entered.setdefault(fn, set()).add(b)
+    out = {}
+    for fn, cov in entered.items():
+        f = prog.funcs.get(fn)
+        if not f or f.get("external") or not f.get("pkg", "").startswith("filippo.io/edwards25519"):
+            continue
+        if only is not None and fn not in only:
+            continue
+        blocks = f["blocks"]
+        # blocks that can reach a Return
+        succs = {i: list(b.get("succs", [])) for i, b in enumerate(blocks)}
+        can = {i for i, b in enumerate(blocks) if any(ins["op"] == "Return" for ins in b["instrs"])}
+        changed = True
+        while changed:
+            changed = False
+            for i, ss in succs.items():
+                if i not in can and any(x in can for x in ss):
+                    can.add(i)
+                    changed = True
+        miss = sorted(i for i in can if i not in cov)
+        if miss:
+            out[fn] = [(i, next((ins.get("pos") for ins in blocks[i]["instrs"] if ins.get("pos")), "")) for i in miss]
+    return out
+
+
+def bounds_cover_code(chk, prog, roots, exempt=()):
+    """unwinding-assertion analogue: every basic block (other than panic-only code) of the functions under test and of
+    the repo functions they reach and enter must have been executed by some explored path; otherwise the code contains
+    behaviour outside the harness bounds (e.g. a branch on a term count above n) and the check is undecided.
+    Returns the length-like constants of the functions with unexplored blocks (for the native battery)."""
+    from sym.check import Ob
+    seen, work = set(), list(roots)
+    while work:
+        x = work.pop()
+        if x in seen:
+            continue
+        seen.add(x)
+        fx = prog.funcs.get(x)
+        if not fx or fx.get("external"):
+            continue
+        for b in fx["blocks"]:
+            for ins in b["instrs"]:
+                if ins["op"] == "Call" and ins["call"]["mode"] == "static":
+                    work.append(ins["call"]["fn"])
+                if ins["op"] == "MakeClosure":
+                    work.append(ins["fn"])
+    unc = {fn: v for fn, v in uncovered_blocks(prog, only=seen).items() if fn not in exempt}
+    names = sorted(r.split(".")[-1].replace(")", "") for r in roots)
+    chk.add(Ob("bounds cover the code: every non-panic basic block of %s and of the functions they enter is reached by an explored path" % ", ".join(names),
+               "unsat" if not unc else "unexplored:%s" % {k.replace("filippo.io/edwards25519", "ed"): [p for _, p in v][:3] for k, v in unc.items()}, 0, sorted(unc) or list(roots)[:1], "block coverage of the symbolic exploration"))
+    consts = set()
+    for fn in unc:
+        for b in prog.funcs[fn]["blocks"]:
+            for ins in b["instrs"]:
+                if ins["op"] == "BinOp" and ins.get("binop") in ("<", "<=", ">", ">=", "==", "!="):
+                    for key in ("x", "y"):
+                        v = ins.get(key)
+                        if isinstance(v, dict) and v.get("k") == "const" and not v.get("str") and not v.get("float"):
+                            try:
+                                cv = int(v.get("v"))
+                            except (TypeError, ValueError):
+                                continue
+                            if 2 <= cv <= 512:
+                                consts.add(cv)
+    return sorted(consts)
+
+
+def settle_bounds(chk, prog, roots, exempt=("filippo.io/edwards25519.checkInitialized", "(*filippo.io/edwards25519.Scalar).nonAdjacentForm")):
+    # exempt: checkInitialized (its second test is never reached under the group-mode abstraction; executed at limb level
+    # in C15) and nonAdjacentForm (discharged inductively from a loop-head hook, which does not walk the exit blocks)
+    """bounds_cover_code + native battery with term counts around the constants of the unexplored code"""
+    from sym import ptreplay
+    consts = bounds_cover_code(chk, prog, roots, exempt)
+    ob = chk.obs[-1]
+    if ob.ok():
+        return
+    sizes = sorted({n for c in (consts or [8, 16, 32, 64]) for n in (c - 1, c, c + 1, c + 6, 2 * c + 1) if 0 <= n <= 200})
+    chk.extra["large_term_counts_replayed"] = sizes
+    try:
+        hit = ptreplay.battery_multiscalar_sizes(chk.seed, sizes)
+    except Exception as e:
+        chk.note_inconclusive("large-n battery failed: %r" % (e,))
+        return
+    if hit:
+        ob.verdict = "violated"
+        chk.violation("multi-scalar routines above the symbolic bound", hit["what"], hit)
